@@ -131,7 +131,7 @@ func sectionKeys(top *ref.Obj, name string) []string {
 // C15 – order of independent top-level blocks.
 func C15(c *fw.Ctx) {
 	limit := c.Pick(6, 120)
-	c.Rule(fmt.Sprintf("inputs: accepted single-file LF corpus documents and rendered models without a root-level PASTE or an implicit-context MACRO; blocks = root "+
+	c.Rule(fmt.Sprintf("inputs: accepted single-file LF corpus documents and rendered models without a root-level PASTE or an implicit-context MACRO, and documents whose blocks are MACRO definitions that paste each other (all acyclic graphs on 3 macros, seeded ones on 4); blocks = root "+
 		"directives with their subtrees (reference automaton over the public lexeme stream), JSIGHT pinned first; all permutations for <= 5 blocks (at most "+
 		"%d per document), seeded permutations otherwise; oracle: the permuted document is accepted, every section holds the same entries with the "+
 		"same content (interaction lists of a tag as sets), and the order of userTypes, userEnums, servers, explicit tags, interactions and of the "+
@@ -157,6 +157,48 @@ func C15(c *fw.Ctx) {
 		}
 		for name, content := range ruleRejectedDocs() {
 			add(name, content)
+		}
+		// MACRO blocks are top-level blocks too: every acyclic PASTE graph on 3 macros and seeded ones on 4 (a macro reached twice, through
+		// two others or directly), pasted from a method; the permutations put every definition before and after its uses
+		gr := gen.Rng(c.Seed, c.ID, "macro-graphs")
+		ng := 0
+		addGraph := func(n int, edges [][]int) {
+			for s := 0; s < n; s++ {
+				if hasCycleFrom(edges, s) {
+					return
+				}
+			}
+			var used []int
+			for u := 0; u < n; u++ {
+				used = append(used, u)
+			}
+			ng++
+			add(fmt.Sprintf("macro-graph-%d", ng), []byte(macroGraphDoc(n, edges, used[:1+ng%n], "method")))
+		}
+		for g := 0; g < 512; g++ {
+			edges := make([][]int, 3)
+			for i := 0; i < 3; i++ {
+				for k := 0; k < 3; k++ {
+					if g&(1<<uint(i*3+k)) != 0 {
+						edges[i] = append(edges[i], k)
+					}
+				}
+			}
+			addGraph(3, edges)
+		}
+		for s := 0; s < c.Pick(300, 6000); s++ {
+			edges := make([][]int, 4)
+			for i := 0; i < 4; i++ {
+				for k := 0; k < 4; k++ {
+					if i != k && gr.Intn(3) == 0 {
+						edges[i] = append(edges[i], k)
+					}
+				}
+				if gr.Intn(4) == 0 && len(edges[i]) > 0 {
+					edges[i] = append(edges[i], edges[i][0]) // the same macro pasted twice by one macro
+				}
+			}
+			addGraph(4, edges)
 		}
 		r := gen.Rng(c.Seed, c.ID, "models")
 		for i := 0; i < c.Pick(300, 6000); i++ {
